@@ -2,7 +2,10 @@
 CLAIMED = True
 
 CFG = dict(
-    rule="generated source configurations run through the REAL numbering code: 68% Lancero (0..12 faked cards with distinct device numbers in "
+    rule="generated source configurations run through the REAL numbering code: 25% HISTORIES of 2..6 steps on ONE source object "
+         "(Lancero: reconfigure with other column/card separation, first row, active-card subset/order/extra card, row count, a wholly "
+         "different configuration, the same configuration again, or PrepareChannels again without reconfiguring; Abaco/simulated/ROACH "
+         "re-prepared with other layouts / channel counts) with the tables judged after EVERY step; 50% single Lancero (0..12 faked cards with distinct device numbers in "
          "sorted or shuffled order, 0..10 columns, 0..256 rows, equal or mixed geometries, first-row numbers incl. 0/negative/1e6, column and card "
          "separations 0 / exactly large enough / one too small / larger / tiny / negative / random; PrepareChannels called twice without "
          "reconfiguring, so the state a rejection leaves behind is exercised), 20% Abaco (1..12 channel groups announced by sampled packets "
@@ -10,10 +13,10 @@ CFG = dict(
          "8% simulated sources (Configure + Sample + default AnySource.PrepareChannels, incl. nchan<1), 4% ROACH; one source per run just past "
          "the 16-bit limit of the row/column code. For ~11% of cases (<=96 streams) the Start path continues with the real PrepareRun and a real "
          "WriteControl START and the identity given to every file writer is read back. The oracle judges the real tables (lengths, err/fb "
-         "partners, number collisions, name collisions, groups cover exactly, codes decode to the true geometry, file names distinct, header "
+         "partners, number collisions, name collisions, groups cover exactly as a multiset — every number in use in exactly one reported group, no group member that is not in use —, codes decode to the true geometry, file names distinct, header "
          "identity = reported tables); the model must reproduce names, numbers, codes, groups and accept/reject exactly. Non-trivial = an accepted "
          "configuration with at least 4 streams, or a rejected one whose numbering would have collided; distinct by input line.",
-    nontrivial=["multi", "would-collide"],
+    nontrivial=["multi", "would-collide", "regroup"],
     jobs=seeds(1, 4),
     trusted_base=["Go int modelled as unbounded Int (no 64-bit overflow in channel-number arithmetic)",
                   "fmt.Sprintf(\"%d\") transcribed as fmtInt and the %s.%s tail of the file-name pattern as list append (compared with the real strings every run)",
@@ -30,7 +33,7 @@ MANIFEST = dict(
          "formation, for ALL configurations: an accepted Lancero configuration numbers every (card,column,row) exactly once and injectively, "
          "error/feedback partners share the number, names (hence file names for every extension) are pairwise distinct; any separations whose "
          "numbering would collide are rejected (exact acceptance condition proved); channel groups cover exactly the numbers in use for every "
-         "source kind; Abaco accepts iff no channel is in two groups and then numbers uniquely; row/column codes round-trip under the 16-bit "
+         "source kind, and what one LanceroSource object reports after any history of reconfigurations and retries depends only on the configuration the call sees, never on the group list earlier calls left (history independence); Abaco accepts iff no channel is in two groups and then numbers uniquely; row/column codes round-trip under the 16-bit "
          "guards (guards shown necessary by a proved counterexample = the recorded known finding C19:rccode-overflow16); the model passes the run-time oracle. "
          "The model is compared with the real PrepareChannels/Sample/WriteControl START on generated configurations every run and the same oracle "
          "judges the real tables.",
@@ -61,4 +64,6 @@ THEOREMS = [
     ("DastardV.Props.C19", "DastardV.C19.C19_model_passes_oracle"),
     ("DastardV.Props.C19", "DastardV.C19.C19_oracle_sound"),
     ("DastardV.Props.C19", "DastardV.C19.fits16_iff"),
+    ("DastardV.Props.C19", "DastardV.C19.C19_groups_history_independent"),
+    ("DastardV.Props.C19", "DastardV.C19.C19_history_independent"),
 ]
